@@ -169,9 +169,8 @@ class TranslateMonitor:
                 if v and v not in emitted:
                     dropped.append('pattern:' + v[:30])
         self.r.counters['operand_conservation_checked'] += 1
-        if dropped and 'TEXT(' in str(getattr(cell, 'value', '')).replace(' ', '').replace('\t', '').replace('\n', '') and \
-                all(x.startswith('literal:') for x in dropped):
-            # TEXT(value, format) is a stub that returns its value: the format literal is ignored by design (not a C05 matter)
+        if dropped and 'TEXT(' in str(getattr(cell, 'value', '')).replace(' ', '').replace('\t', '').replace('\n', ''):
+            # TEXT(value, format) is a stub that returns its value: the whole format ARGUMENT is ignored by design (not a C05 matter)
             self.r.counters['operand_conservation_text_format_exempt'] += 1
             dropped = []
         if dropped:
